@@ -479,3 +479,33 @@ Theorem profile_order_independent start endT cr dt ttot holds holds' :
 Proof.
   intros HP ND. unfold profile, raw_profile. rewrite (sort_perm _ _ HP ND). reflexivity.
 Qed.
+
+(* ---- S6 / S7 composed over the whole program: the sample at which the k-th hold ends lies within one step per program
+   segment (each ramp and each plateau is a segment) of the continuous program time ------------------------------------- *)
+Section Composition.
+  Variables cr dt : R.
+  Hypothesis Hcr : 0 < cr.
+  Hypothesis Hdt : 0 < dt.
+  (* continuous time needed for the listed ramps and holds, starting at temperature Ts *)
+  Fixpoint ctime (Ts : R) (hs : list (@hold R)) : R :=
+    match hs with [] => 0 | h :: r => (Ts - h_temp h) / cr + h_dur h + ctime (h_temp h) r end.
+
+  Theorem segments_length_bounds : forall hs Ts, desc_from Ts hs -> Forall (fun h => 0 <= h_dur h) hs ->
+    ctime Ts hs / dt - INR (length hs) <= INR (length (rsegments Ts cr dt hs)) <= ctime Ts hs / dt + 2 * INR (length hs).
+  Proof.
+    induction hs as [|h r IH]; intros Ts Hd Hdur.
+    - cbn [ctime segments length INR]. unfold Rdiv. rewrite Rmult_0_l. split; lra.
+    - destruct Hd as [Hle Hd']. inversion Hdur as [|? ? Hh Hr]; subst.
+      specialize (IH (h_temp h) Hd' Hr).
+      cbn [segments ctime]. rewrite !app_length, !plus_INR.
+      pose proof (ramp_length_bounds cr dt Hcr Hdt Ts (h_temp h) Hle) as Hm. cbv zeta in Hm.
+      pose proof (plateau_length_bounds cr dt Hdt Ts (h_temp h) (h_dur h) Hh) as Hp. cbv zeta in Hp.
+      set (m := INR (length (rramp Ts (h_temp h) cr dt))) in *.
+      set (p := INR (length (rplateau Ts (h_temp h) cr dt (h_dur h)))) in *.
+      set (s := INR (length (rsegments (h_temp h) cr dt r))) in *.
+      change (length (h :: r)) with (S (length r)). rewrite S_INR.
+      replace (((Ts - h_temp h) / cr + h_dur h + ctime (h_temp h) r) / dt)
+        with ((Ts - h_temp h) / cr / dt + h_dur h / dt + ctime (h_temp h) r / dt) by (field; lra).
+      split; lra.
+  Qed.
+End Composition.
